@@ -274,14 +274,45 @@ struct PointResult {
     tables: String,
     again: String,
     probe: String,
+    /// crash points inside the recovery itself: `-` (not explored), `ok:<n>`, or the failing ones `j:<phase>:<what>,…`
+    nest: String,
 }
 
-fn observe_image(img: &Image, tables: &[String], cfg: DBConfig) -> PointResult {
+/// Opens an image and reads it back; no second open, no probe (used for crash points inside recovery).
+fn open_and_dump(img: &Image, tables: &[String], cfg: DBConfig) -> Result<String, String> {
+    let dir = scratch_dir("nest");
+    img.write_to(&dir);
+    let path = dir.join("test.db");
+    let r = std::panic::catch_unwind(std::panic::AssertUnwindSafe(|| Database::open(&path, cfg)));
+    let out = match r {
+        Err(_) => Err("panic".to_string()),
+        Ok(Err(e)) => {
+            if std::env::var("AXH_DEBUG").is_ok() {
+                eprintln!("nested open failed: {}", e);
+            }
+            Err(format!("fail:{}", err_class(&e)))
+        }
+        Ok(Ok(db)) => {
+            let t = dump_tables(&db, tables);
+            drop(db);
+            Ok(t)
+        }
+    };
+    let _ = std::fs::remove_dir_all(&dir);
+    out
+}
+
+fn observe_image(img: &Image, tables: &[String], cfg: DBConfig, nested: bool) -> PointResult {
     let dir = scratch_dir("img");
     img.write_to(&dir);
     let path = dir.join("test.db");
-    let mut res = PointResult { open: String::new(), tables: "-".into(), again: "-".into(), probe: "-".into() };
+    let mut res =
+        PointResult { open: String::new(), tables: "-".into(), again: "-".into(), probe: "-".into(), nest: "-".into() };
+    if nested {
+        iotap::install();
+    }
     let r = std::panic::catch_unwind(std::panic::AssertUnwindSafe(|| Database::open(&path, cfg)));
+    let rec_events = if nested { iotap::take() } else { Vec::new() };
     match r {
         Err(_) => res.open = "panic".into(),
         Ok(Err(e)) => {
@@ -294,6 +325,31 @@ fn observe_image(img: &Image, tables: &[String], cfg: DBConfig) -> PointResult {
             res.open = "ok".into();
             res.tables = dump_tables(&db, tables);
             drop(db); // clean close (checkpoint)
+            if nested {
+                // every prefix of the mutations recovery itself issued is a crash point inside recovery:
+                // recovering again from there must give the same contents
+                let all: String = rec_events.iter().filter_map(ev_char).collect();
+                let mut img2 = img.clone();
+                let mut bad: Vec<String> = Vec::new();
+                let mut n = 0;
+                let mut done = String::new();
+                for e in &rec_events {
+                    let changed = img2.apply(e);
+                    if let Some(c) = ev_char(e) {
+                        done.push(c);
+                    }
+                    if !changed {
+                        continue;
+                    }
+                    n += 1;
+                    match open_and_dump(&img2, tables, cfg) {
+                        Ok(t) if t == res.tables => {}
+                        Ok(t) => bad.push(format!("{}/{}:diff:{}", done, all, t.replace(',', ";"))),
+                        Err(e) => bad.push(format!("{}/{}:{}", done, all, e)),
+                    }
+                }
+                res.nest = if bad.is_empty() { format!("ok:{}", n) } else { bad.join(",") };
+            }
             let r2 = std::panic::catch_unwind(std::panic::AssertUnwindSafe(|| Database::open(&path, cfg)));
             match r2 {
                 Ok(Ok(db2)) => {
@@ -476,6 +532,7 @@ fn run_case(line: &str) -> String {
     let mut inflight: Option<usize> = None;
     let mut groups: Vec<(usize, usize, String)> = Vec::new();
     let mut call_at: usize = 0; // index of the latest `call` mark
+    let mut nest_budget: usize = std::env::var("AXH_CRASH_NEST").ok().and_then(|s| s.parse().ok()).unwrap_or(8);
     for &k in &points {
         while applied < k {
             let e = &events[applied];
@@ -498,7 +555,12 @@ fn run_case(line: &str) -> String {
             }
             applied += 1;
         }
-        let pr = observe_image(&img, &tables, cfg);
+        // crash points inside recovery: only for C08, only where the log is non-trivial, at most NEST per case
+        let nested = hw[0] == "crash08" && nest_budget > 0 && inflight.is_some();
+        if nested {
+            nest_budget -= 1;
+        }
+        let pr = observe_image(&img, &tables, cfg, nested);
         // phase of the call in flight: I/O done so far / all I/O of that call
         let ph = if inflight.is_some() {
             let done: String = events[call_at..k].iter().filter_map(ev_char).collect();
@@ -516,14 +578,15 @@ fn run_case(line: &str) -> String {
             "-/-".to_string()
         };
         let desc = format!(
-            "acked={} infl={} ph={} open={} T={} again={} probe={}",
+            "acked={} infl={} ph={} open={} T={} again={} probe={} nest={}",
             if acked.is_empty() { "-".to_string() } else { acked.iter().map(|u| u.to_string()).collect::<Vec<_>>().join(",") },
             inflight.map(|u| u.to_string()).unwrap_or_else(|| "-".into()),
             ph,
             pr.open,
             if pr.tables.is_empty() { "-".into() } else { pr.tables },
             pr.again,
-            pr.probe
+            pr.probe,
+            pr.nest
         );
         match groups.last_mut() {
             Some((_, b, d)) if *d == desc => *b = k,
